@@ -662,13 +662,16 @@ static std::vector<T> alphabet(bool thorough)
         const T wlim = std::ldexp(T(1), int(cfg<T>::W)), wlo = std::ldexp(T(1), -int(cfg<T>::W));
         const T sq_hi = std::ldexp(T(1), (L::max_exponent) / 2);                          // 2^512 / 2^64: squares overflow from here
         const T sq_lo = std::ldexp(T(1), (L::min_exponent - L::digits) / 2 - 1);          // squares underflow to zero from here
-        T q[] = {T(0), -T(0), T(1), T(-1), T(0.5), T(-0.5), T(2), T(-2), T(3), T(-7),
+        T q[] = {T(0), -T(0), T(1), T(-1), T(0.5), T(-2), T(3), T(-7),
                  L::min(), -L::min(), L::denorm_min(), -L::denorm_min(), big, -big, small, -small, L::max(), -L::max(), inf, -inf, nan,
-                 third, -onep, T(0.1), T(-3.14159265358979323846), T(12345.678), wlim, -wlo, T(2) * wlim, sq_hi, -sq_lo,
-                 -third, T(1) - L::epsilon() / 2, T(1.41421356237309504880), T(-0.75), T(1e-3), std::ldexp(T(1), int(cfg<T>::W) / 2), -std::ldexp(T(1), -int(cfg<T>::W) / 2),
-                 L::max() / 2, -L::max() / 4, T(4) * L::min(), -T(3) * L::denorm_min(), std::ldexp(T(1.5), L::max_exponent - 2),
-                 T(-1) / T(7), T(5) / T(3), std::ldexp(T(1.1), int(cfg<T>::W) - 1), -std::ldexp(T(1.7), -(int(cfg<T>::W) - 1)),
-                 std::ldexp(T(1.3), int(cfg<T>::BIG) - 3), -std::ldexp(T(1.9), -(int(cfg<T>::BIG) - 3)), L::max() * (T(1) - L::epsilon()), -L::min() * (T(2) + T(2) * L::epsilon())};
+                 // inexact mantissas in the ordinary range
+                 third, -onep, T(0.1), T(-3.14159265358979323846), T(1.41421356237309504880), T(12345.678), T(-1) / T(7), T(5) / T(3),
+                 // the limits of the well-scaled band and values inside it
+                 wlim, -wlo, T(2) * wlim, std::ldexp(T(1), int(cfg<T>::W) / 2), -std::ldexp(T(1), -int(cfg<T>::W) / 2),
+                 std::ldexp(T(1.1), int(cfg<T>::W) - 1), -std::ldexp(T(1.7), -(int(cfg<T>::W) - 1)),
+                 // extreme magnitudes: square overflow / underflow thresholds, inexact mantissas at extreme exponents, neighbours of max and min
+                 sq_hi, -sq_lo, std::ldexp(T(1.3), int(cfg<T>::BIG) - 3), -std::ldexp(T(1.9), -(int(cfg<T>::BIG) - 3)),
+                 L::max() / 2, std::ldexp(T(1.5), L::max_exponent - 2), L::max() * (T(1) - L::epsilon()), -L::min() * (T(2) + T(2) * L::epsilon()), -T(3) * L::denorm_min()};
         v.assign(q, q + sizeof q / sizeof q[0]);
     }
     return v;
